@@ -255,6 +255,8 @@ def cxx_candidates(r, n, maxdepth):
         line, a = dc.real_parse(text)
         if a is None or not line.startswith("ok ") or a.name is None:
             continue
+        if ") const" in text or ") volatile" in text:
+            continue      # a cv-qualified function type is only valid for a member function (class scope is not in this harness)
         if re.search(r"\[ (?![0-9]+ \])", text):
             continue      # only integer-literal array bounds make a self-contained translation unit
         out.append((text, a))
